@@ -713,7 +713,7 @@ func bodySMT(t *Term, bv bool) string {
 	}
 	sb.WriteByte('(')
 	if t.op == "uf" {
-		sb.WriteString(t.name)
+		sb.WriteString("uf_" + t.name)
 	} else {
 		op, ok := opSMT[t.op]
 		if bv {
